@@ -15,7 +15,7 @@ from harness.lib import common
 PROP = 'C15'
 PROP_FILE = 'Props/C15.v'
 THEOREMS = ['C15_components_safe', 'C15_cd_safe', 'C15_path_inside_root', 'C15_cd_path_inside_dir',
-            'C15_url_path_inside_root', 'C15_url_ok_of_url', 'C15_session_path_inside_root', 'C15_request_name_inside_root',
+            'C15_url_path_inside_root', 'C15_url_ok_of_url', 'C15_session_path_inside_root', 'C15_session_from_url_strings', 'C15_request_name_inside_root',
             'C15_placed_inside', 'C15_makedirs_inside_root', 'C15_extra_resource_inside_root', 'C15_symlink_inside_root']
 TRUSTED = [
     'hand-written models Model/Path.v (wpull/path.py) and Model/PathWriter.v (urllib.parse.urlsplit + SplitResult.hostname/.port of '
@@ -742,7 +742,7 @@ def os_type_domain(repo):
 
 def _sizes(ctx):
     if ctx.thorough:
-        return dict(n_url=24000, n_raw=6000, n_cd=8000, n_lib=3000, n_fs=400, n_split=8000, n_sess=6000)
+        return dict(n_url=14000, n_raw=4000, n_cd=5000, n_lib=2000, n_fs=300, n_split=5000, n_sess=4000)
     return dict(n_url=1000, n_raw=400, n_cd=500, n_lib=300, n_fs=48, n_split=400, n_sess=300)
 
 
